@@ -72,7 +72,7 @@ func readJSON(path string, into interface{}) bool {
 func selectContracts(P *Program, prop string) []*FuncContract {
 	var out []*FuncContract
 	for _, c := range P.contracts {
-		if c.Trusted || c.IsLemma {
+		if c.Trusted || c.IsLemma || c.IsLua {
 			continue
 		}
 		if hasProp(c.Props, prop) || clauseHasProp(c, prop) {
@@ -656,13 +656,17 @@ func lemmaObligations(P *Program, prop string) []*FuncResult {
 	var out []*FuncResult
 	var keys []string
 	for k, c := range P.contracts {
-		if c.IsLemma && hasProp(c.Props, prop) {
+		if (c.IsLemma || c.IsLua) && hasProp(c.Props, prop) {
 			keys = append(keys, k)
 		}
 	}
 	sort.Strings(keys)
 	for _, k := range keys {
-		out = append(out, generateLemma(P, P.contracts[k]))
+		if P.contracts[k].IsLua {
+			out = append(out, generateLua(P, P.contracts[k]))
+		} else {
+			out = append(out, generateLemma(P, P.contracts[k]))
+		}
 	}
 	return out
 }
